@@ -1,5 +1,391 @@
-//! engine T: owned-schedule multi-thread executor (placeholder hooks; filled in later)
-pub fn on_yield(_kind: u8, _addr: usize) {}
-pub fn on_blocked(_addr: usize) {
-  std::thread::yield_now();
+//! engine T: owned-schedule multi-thread executor.
+//!
+//! 2..3 real OS threads run per case but a controller lets exactly one run at a
+//! time.  Every MutArc lock acquisition of a managed thread first reports a yield
+//! point (verif_hooks); a lock that is held makes the thread report `blocked` and
+//! hand the baton on.  A case's schedule is a list of preemptions
+//! (global yield step k -> thread j); between preemptions the running thread keeps
+//! the baton (so shrinking minimises the number of preemptions).  Deadlock (every
+//! unfinished thread blocked without progress) and lost wake-ups (a thread parked
+//! in the harness `block_on` that nobody can wake any more) are controller
+//! verdicts, not hangs.
+use crate::hooks::{self, ThreadMode};
+use std::cell::RefCell;
+use std::panic::{catch_unwind, resume_unwind, AssertUnwindSafe};
+use std::sync::{Arc, Condvar, Mutex};
+
+#[derive(Clone, Copy, Debug, PartialEq, Eq)]
+enum TStatus {
+  NotStarted,
+  Runnable,
+  Blocked(usize),
+  /// parked in block_on, waiting for a wake
+  Waiting,
+  Finished,
+}
+
+#[derive(Clone, Debug, PartialEq, Eq)]
+pub enum Verdict {
+  Completed,
+  Deadlock(String),
+  LostWakeup(String),
+  Panic(String),
+  StepLimit,
+}
+
+struct State {
+  current: Option<usize>,
+  status: Vec<TStatus>,
+  woken: Vec<bool>,
+  step: u64,
+  /// (step, thread): when the global yield counter reaches `step`, hand the baton to `thread`
+  preemptions: Vec<(u64, usize)>,
+  no_progress: usize,
+  aborted: bool,
+  verdict: Option<Verdict>,
+  /// statistics
+  yields: u64,
+  preemptions_taken: u64,
+  preempted_inside_call: u64,
+  in_call: Vec<bool>,
+  blocked_events: u64,
+  lock_edges: Vec<(usize, usize)>,
+  max_steps: u64,
+}
+
+pub struct Ctl {
+  st: Mutex<State>,
+  cv: Condvar,
+}
+
+struct AbortCase;
+
+thread_local! {
+  static ME: RefCell<Option<(Arc<Ctl>, usize)>> = RefCell::new(None);
+}
+
+fn me() -> Option<(Arc<Ctl>, usize)> {
+  ME.with(|m| m.borrow().clone())
+}
+
+impl Ctl {
+  fn pick_next(st: &State, after: usize) -> Option<usize> {
+    let n = st.status.len();
+    (1..=n).map(|d| (after + d) % n).find(|i| matches!(st.status[*i], TStatus::Runnable | TStatus::NotStarted | TStatus::Blocked(_)))
+  }
+
+  /// wait until it is `tid`'s turn (or the case is aborted)
+  fn wait_turn(&self, mut g: std::sync::MutexGuard<'_, State>, tid: usize) {
+    loop {
+      if g.aborted {
+        drop(g);
+        if std::thread::panicking() {
+          return;
+        }
+        resume_unwind(Box::new(AbortCase));
+      }
+      if g.current == Some(tid) {
+        return;
+      }
+      g = self.cv.wait(g).unwrap();
+    }
+  }
+
+  fn abort(&self, g: &mut State, v: Verdict) {
+    if g.verdict.is_none() {
+      g.verdict = Some(v);
+    }
+    g.aborted = true;
+    g.current = None;
+    self.cv.notify_all();
+  }
+
+  /// hand the baton to `to`
+  fn switch_to(&self, g: &mut State, to: usize) {
+    g.current = Some(to);
+    if matches!(g.status[to], TStatus::NotStarted) {
+      g.status[to] = TStatus::Runnable;
+    }
+    self.cv.notify_all();
+  }
+}
+
+/// hook: a managed thread is about to take a MutArc lock (or reached an explicit yield)
+pub fn on_yield(_kind: u8, _addr: usize) {
+  if std::thread::panicking() {
+    return;
+  }
+  let Some((ctl, tid)) = me() else { return };
+  let mut g = ctl.st.lock().unwrap();
+  if g.aborted {
+    drop(g);
+    resume_unwind(Box::new(AbortCase));
+  }
+  g.step += 1;
+  g.yields += 1;
+  g.no_progress = 0;
+  if matches!(g.status[tid], TStatus::Blocked(_)) {
+    g.status[tid] = TStatus::Runnable;
+  }
+  if g.step > g.max_steps {
+    ctl.abort(&mut g, Verdict::StepLimit);
+    drop(g);
+    resume_unwind(Box::new(AbortCase));
+  }
+  let step = g.step;
+  if let Some(pos) = g.preemptions.iter().position(|(s, _)| *s == step) {
+    let (_, to) = g.preemptions[pos];
+    let n = g.status.len();
+    let to = to % n;
+    if to != tid && matches!(g.status[to], TStatus::Runnable | TStatus::NotStarted | TStatus::Blocked(_)) {
+      g.preemptions_taken += 1;
+      if g.in_call[tid] {
+        g.preempted_inside_call += 1;
+      }
+      ctl.switch_to(&mut g, to);
+      ctl.wait_turn(g, tid);
+      return;
+    }
+  }
+}
+
+/// hook: the lock at `addr` is held by somebody else
+pub fn on_blocked(addr: usize) {
+  if std::thread::panicking() {
+    std::thread::yield_now();
+    return;
+  }
+  let Some((ctl, tid)) = me() else {
+    std::thread::yield_now();
+    return;
+  };
+  let mut g = ctl.st.lock().unwrap();
+  if g.aborted {
+    drop(g);
+    resume_unwind(Box::new(AbortCase));
+  }
+  g.blocked_events += 1;
+  g.status[tid] = TStatus::Blocked(addr);
+  g.no_progress += 1;
+  let n = g.status.len();
+  if g.no_progress > 2 * n + 2 {
+    let who: Vec<String> = g.status.iter().enumerate().map(|(i, s)| format!("t{i}:{s:?}")).collect();
+    ctl.abort(&mut g, Verdict::Deadlock(who.join(" ")));
+    drop(g);
+    resume_unwind(Box::new(AbortCase));
+  }
+  match Ctl::pick_next(&g, tid) {
+    Some(to) if to != tid => {
+      ctl.switch_to(&mut g, to);
+      ctl.wait_turn(g, tid);
+    }
+    _ => {
+      // nobody else can run: the lock can never be released
+      let who: Vec<String> = g.status.iter().enumerate().map(|(i, s)| format!("t{i}:{s:?}")).collect();
+      ctl.abort(&mut g, Verdict::Deadlock(who.join(" ")));
+      drop(g);
+      resume_unwind(Box::new(AbortCase));
+    }
+  }
+}
+
+/// explicit yield point inside harness code (probe callbacks)
+pub fn explicit_yield() {
+  if hooks::mode() == ThreadMode::Controlled {
+    on_yield(9, 0);
+  }
+}
+
+/// mark the beginning / end of an API call made by the script (for the non-trivial rule)
+pub fn call_begin() {
+  if let Some((ctl, tid)) = me() {
+    ctl.st.lock().unwrap().in_call[tid] = true;
+  }
+}
+pub fn call_end() {
+  if let Some((ctl, tid)) = me() {
+    ctl.st.lock().unwrap().in_call[tid] = false;
+  }
+}
+
+/// wake a thread parked in `block_on`
+pub fn wake_thread(ctl: &Arc<Ctl>, tid: usize) {
+  let mut g = ctl.st.lock().unwrap();
+  g.woken[tid] = true;
+  if g.status[tid] == TStatus::Waiting {
+    g.status[tid] = TStatus::Runnable;
+  }
+}
+
+/// harness block_on for managed threads: polls `f`; when Pending the thread is
+/// parked as a controller state until its waker fires
+pub fn block_on<F: std::future::Future>(f: F) -> F::Output {
+  use futures::task::{waker, ArcWake};
+  struct W(Arc<Ctl>, usize);
+  impl ArcWake for W {
+    fn wake_by_ref(a: &Arc<Self>) {
+      wake_thread(&a.0, a.1);
+    }
+  }
+  let (ctl, tid) = me().expect("block_on outside a managed thread");
+  let wk = waker(Arc::new(W(ctl.clone(), tid)));
+  let mut cx = std::task::Context::from_waker(&wk);
+  let mut f = Box::pin(f);
+  loop {
+    {
+      ctl.st.lock().unwrap().woken[tid] = false;
+    }
+    if let std::task::Poll::Ready(v) = f.as_mut().poll(&mut cx) {
+      return v;
+    }
+    let mut g = ctl.st.lock().unwrap();
+    if g.aborted {
+      drop(g);
+      resume_unwind(Box::new(AbortCase));
+    }
+    if g.woken[tid] {
+      continue; // woken between the poll and now
+    }
+    g.status[tid] = TStatus::Waiting;
+    match Ctl::pick_next(&g, tid) {
+      Some(to) if to != tid => {
+        ctl.switch_to(&mut g, to);
+        ctl.wait_turn(g, tid);
+      }
+      _ => {
+        ctl.abort(&mut g, Verdict::LostWakeup(format!("thread {tid} waits for a wake-up that no other thread can deliver any more")));
+        drop(g);
+        resume_unwind(Box::new(AbortCase));
+      }
+    }
+  }
+}
+
+// a small pool of persistent executor threads per driver thread (spawning three OS
+// threads per case makes the kernel's address-space lock the bottleneck)
+struct Exec {
+  tx: std::sync::mpsc::Sender<Box<dyn FnOnce() + Send>>,
+  done: std::sync::mpsc::Receiver<()>,
+}
+thread_local! { static POOL: RefCell<Vec<Exec>> = RefCell::new(vec![]); }
+
+fn run_on_pool(jobs: Vec<Box<dyn FnOnce() + Send>>) {
+  POOL.with(|p| {
+    let mut p = p.borrow_mut();
+    while p.len() < jobs.len() {
+      let (tx, rx) = std::sync::mpsc::channel::<Box<dyn FnOnce() + Send>>();
+      let (dtx, drx) = std::sync::mpsc::channel::<()>();
+      std::thread::Builder::new()
+        .stack_size(1 << 20)
+        .spawn(move || {
+          while let Ok(job) = rx.recv() {
+            let _ = catch_unwind(AssertUnwindSafe(job));
+            if dtx.send(()).is_err() {
+              break;
+            }
+          }
+        })
+        .expect("cannot spawn executor thread");
+      p.push(Exec { tx, done: drx });
+    }
+    let n = jobs.len();
+    for (i, j) in jobs.into_iter().enumerate() {
+      p[i].tx.send(j).expect("executor thread gone");
+    }
+    for e in p.iter().take(n) {
+      let _ = e.done.recv();
+    }
+  });
+}
+
+pub struct RunStats {
+  pub verdict: Verdict,
+  pub yields: u64,
+  pub preemptions_taken: u64,
+  pub preempted_inside_call: u64,
+  pub blocked_events: u64,
+}
+
+/// run the thread bodies under the schedule; each body runs on its own OS thread
+pub fn run_threads(bodies: Vec<Box<dyn FnOnce() + Send>>, preemptions: Vec<(u64, usize)>, max_steps: u64) -> RunStats {
+  let n = bodies.len();
+  let ctl = Arc::new(Ctl {
+    st: Mutex::new(State {
+      current: Some(0),
+      status: vec![TStatus::NotStarted; n],
+      woken: vec![false; n],
+      step: 0,
+      preemptions,
+      no_progress: 0,
+      aborted: false,
+      verdict: None,
+      yields: 0,
+      preemptions_taken: 0,
+      preempted_inside_call: 0,
+      in_call: vec![false; n],
+      blocked_events: 0,
+      lock_edges: vec![],
+      max_steps,
+    }),
+    cv: Condvar::new(),
+  });
+  ctl.st.lock().unwrap().status[0] = TStatus::Runnable;
+  let shared_clock = crate::vtime::clock();
+  let jobs: Vec<Box<dyn FnOnce() + Send>> = bodies
+    .into_iter()
+    .enumerate()
+    .map(|(tid, body)| {
+      let ctl = ctl.clone();
+      let clk = shared_clock.clone();
+      let job: Box<dyn FnOnce() + Send> = Box::new(move || {
+        ME.with(|m| *m.borrow_mut() = Some((ctl.clone(), tid)));
+        hooks::set_mode(ThreadMode::Controlled);
+        crate::vtime::set_clock(clk);
+        let r = catch_unwind(AssertUnwindSafe(|| {
+          {
+            let g = ctl.st.lock().unwrap();
+            ctl.wait_turn(g, tid);
+          }
+          body();
+        }));
+        hooks::set_mode(ThreadMode::Unmanaged);
+        // hand the baton on
+        let mut g = ctl.st.lock().unwrap();
+        g.status[tid] = TStatus::Finished;
+        g.no_progress = 0;
+        if let Err(p) = r {
+          if p.downcast_ref::<AbortCase>().is_none() {
+            let msg = p.downcast_ref::<&str>().map(|s| s.to_string()).or_else(|| p.downcast_ref::<String>().cloned()).unwrap_or_else(|| "<panic>".into());
+            let v = if msg.contains(crate::hooks::SELF_DEADLOCK) { Verdict::Deadlock(msg) } else { Verdict::Panic(msg) };
+            ctl.abort(&mut g, v);
+          }
+        }
+        if !g.aborted {
+          match Ctl::pick_next(&g, tid) {
+            Some(to) => ctl.switch_to(&mut g, to),
+            None => {
+              if let Some(w) = g.status.iter().position(|s| *s == TStatus::Waiting) {
+                ctl.abort(&mut g, Verdict::LostWakeup(format!("thread {w} is still waiting for a wake-up after every other thread has finished")));
+              } else {
+                g.current = None;
+                ctl.cv.notify_all();
+              }
+            }
+          }
+        }
+        drop(g);
+        ME.with(|m| *m.borrow_mut() = None);
+      });
+      job
+    })
+    .collect();
+  run_on_pool(jobs);
+  let g = ctl.st.lock().unwrap();
+  RunStats {
+    verdict: g.verdict.clone().unwrap_or(Verdict::Completed),
+    yields: g.yields,
+    preemptions_taken: g.preemptions_taken,
+    preempted_inside_call: g.preempted_inside_call,
+    blocked_events: g.blocked_events,
+  }
 }
